@@ -352,6 +352,8 @@ func runC05(c *an.Ctx) {
 		}
 		c.Check(ok, "shape|chargeCostGas|transfer", "the fee is an ONG transfer of exactly `gas` from the payer to the governance contract, and chargeCostGas succeeds only if that transfer succeeded", c.P.Rel(charge.Pos()), why)
 	}
+	// (5b) Reset discards all per-transaction state of the cache (added for seed C05c: a read memo kept across Reset)
+	cacheResetRule(c)
 	// (6) confinement of Commit
 	cg := c.P.CallGraph()
 	stateCommit := mustFunc(c, sp+".(*StateDB).Commit")
